@@ -35,6 +35,23 @@ def one(src, outdir, top, boost, ign):
     except Exception as e:
         res['pybind'] = 'ERR:' + type(e).__name__
     try:
+        # the file-writing entry points, into <outdir>/pyb (a directory that an earlier run may have written already)
+        pdir = os.path.join(outdir, 'pyb')
+        os.makedirs(pdir, exist_ok=True)
+        w2 = PybindWrapper(module_name='mod', top_module_namespaces=top, use_boost_serialization=boost == '1',
+                           ignore_classes=ign, module_template=tpl)
+        w2.wrap([src], os.path.join(pdir, 'main.cpp'))
+        res['pybind_file'] = hashlib.sha256(open(os.path.join(pdir, 'main.cpp'), 'rb').read()).hexdigest()
+        cwd = os.getcwd()
+        os.chdir(pdir)
+        try:
+            w2.wrap_submodule(src)
+        finally:
+            os.chdir(cwd)
+        res['pybind_files'] = {f: hashlib.sha256(open(os.path.join(pdir, f), 'rb').read()).hexdigest() for f in sorted(os.listdir(pdir))}
+    except Exception as e:
+        res['pybind_file'] = 'ERR:' + type(e).__name__
+    try:
         mdir = os.path.join(outdir, 'matlab')
         os.makedirs(mdir, exist_ok=True)
         MatlabWrapper(module_name='mod', top_module_namespace=top, ignore_classes=ign,
